@@ -314,6 +314,9 @@ def engine_check(prop, tier, seed, work, replay):
     for s in range(T["seeds"]):
         dr.random("random%d" % s, T["random_runs"], seed * 1000 + s, ["-rehydrate", "9"], runbase=s * 100000)
     dr.repotests()
+    # layouts in which no seat holds the big blind (half of them no small blind either): the engine accepts any layout with a dealer;
+    # every call runs under a watchdog there, a call that never returns is recorded as the call's error (seeded change R5h-A)
+    dr.random("nobb", 150 if tier == "quick" else 2500, seed * 1000 + 83, ["-nobb"], runbase=4500000)
     if prop in ("C04", "C12", "C06"):
         dr.random("probe", T["probe_runs"], seed * 1000 + 77, ["-probe"], runbase=1000000)
     if prop in ("C11", "C12", "C05", "C01"):
